@@ -1,7 +1,7 @@
 #!/bin/bash
 # tools/import_seed.sh <id>: move /tmp/seed-<id>-out/{a,b} to /verif/seeded/<id>/ and drop the worktree
 id=$1
-for v in a b c d e f g h i j; do
+for v in a b c d e f g h i j k l; do
   src=/tmp/seed-$id-out/$v
   [ -f $src/patch.diff ] || continue
   dst=/verif/seeded/$id/$v
